@@ -291,7 +291,7 @@ class Ctx:
         return code
 
 
-GEN_FILES = ["GenTables", "GenArches", "GenNames", "GenStubs", "GenConsts", "GenSkeletons", "GenCodegen"]
+GEN_FILES = ["GenTables", "GenArches", "GenNames", "GenStubs", "GenConsts", "GenSkeletons", "GenCodegen", "GenAmbient"]
 
 TRUSTED_BASE = [
     "Coq 8.16.1 kernel (coqc; vm_compute used for reflection, no native_compute); coqchk in the thorough tier",
